@@ -45,6 +45,11 @@ def gen(rng, i, tier):
         data = F.undecodable(r)
     else:
         data = F.simfile_text(r, fmt, codec).encode(codec)
+        if rng.random() < 0.12:
+            # a chartless file that ends on its last character, a non-ASCII one: no terminator, no line break (what an earlier encoding of
+            # the tried list may see as a truncated sequence)
+            head = ("#VERSION:0.83;\n" if fmt == "ssc" and rng.random() < 0.7 else "") + "#TITLE:%s;\n#BPMS:0.000=120.000;\n#GENRE:" % F.rand_str(r, codec, 3)
+            data = (head + F.rand_str(r, codec, 2)).encode(codec) + rng.choice(["\u00e9".encode("cp1252"), F.rand_str(r, codec, 1).encode(codec)])
     tr = None
     if rng.random() < 0.3:
         tr = list(F.DEFAULT_ENCODINGS); rng.shuffle(tr)
